@@ -267,6 +267,47 @@ def _gen_fs(rng, n):
     return out
 
 
+def _gen_pl_truthful(rng, n):
+    """Op sequences on one or two idle workers in which every probe answer is what a truthful VM would
+    say: a process exists from the moment its `crunch-run --detach` is released (`sd`) and never exits; a
+    probe reports the processes that existed when it began. Marked with the op `tt`; the oracle then demands
+    that Running() reports every such process as alive."""
+    out = []
+    for _ in range(n):
+        two = rng.random() < 0.4
+        ws = ["1:1:I:r:-:-:3:4"] + (["2:2:I:r:-:-:5:6"] if two else [])
+        alive = {1: [], 2: []}
+        pending = {}            # uuid -> worker (deterministic: one idle worker per type)
+        probing = {}            # worker -> sampled list
+        busy = {1: False, 2: False}
+        ops = ["tt"]
+        uu = [1, 2, 3, 4]
+        for _ in range(rng.randint(3, 12)):
+            w = rng.choice([1, 2]) if two else 1
+            r = rng.random()
+            if r < 0.3 and uu and not busy[w]:
+                u = uu.pop()
+                ops.append("st%d:%d" % (w, u))     # type w lives on worker w
+                pending[u] = w
+                busy[w] = True                       # worker is Running from now on (no second start)
+            elif r < 0.55 and pending:
+                u = rng.choice(sorted(pending))
+                ops.append("sd%d" % u)
+                alive[pending.pop(u)].append(u)
+            elif r < 0.8 and w not in probing:
+                ops.append("pb%d:0" % w)
+                probing[w] = list(alive[w])
+            elif w in probing:
+                ops.append("pa%d:1:0:0:%s" % (w, "/".join(map(str, probing.pop(w))) or "-"))
+            else:
+                ops.append("rn")
+        for w in sorted(probing):
+            ops.append("pa%d:1:0:0:%s" % (w, "/".join(map(str, probing[w])) or "-"))
+        ops.append("rn")
+        out.append("pl %s - %s" % (",".join(ws), ",".join(ops)))
+    return out
+
+
 def _gen_e2e(rng, tier):
     """Randomized fault scenarios on the stub cloud (real scheduler + pool + test.Queue + StubDriver)."""
     out = []
@@ -294,6 +335,7 @@ def generate(rng, tier):
     cases += _gen_e2e(rng, tier)
     cases += _gen_fs(rng, 400 if tier == "quick" else 20000)
     cases += _gen_pl(rng, 1500 if tier == "quick" else 60000)
+    cases += _gen_pl_truthful(rng, 600 if tier == "quick" else 20000)
     cases += _gen_rq_exhaustive(tier, rng)
     cases += _gen_rq_random(rng, 3000 if tier == "quick" else 120000)
     cases += _gen_sy(rng, tier)
@@ -445,8 +487,22 @@ def _oracle_pl(f, impl):
         if m and (m.group(2) != "I" or m.group(3) != "r"):
             return (f"container started on instance {m.group(1)} in state {m.group(2)} with idle "
                     f"behaviour {m.group(3)} (must be idle and run)")
-    # Running() must report every container the pool still tracks
     toks = _split(parts[0])
+    ops = _split(f[3])
+    if ops and ops[0] == "tt":
+        # truthful case: every process launched (its start command was released) is alive at the end and
+        # must be reported by Running() as alive (no exit time), otherwise the scheduler would requeue or
+        # restart it while it runs
+        launched = {int(o[2:]) for o in ops if o.startswith("sd")}
+        started = {int(o[2:].split(":")[1]) for o, t in zip([o for o in ops if o[:2] in ("st", "kl", "rn")], toks)
+                   if o.startswith("st") and t != "w0"}
+        live = launched & started
+        last = toks[-1]
+        seen_alive = set() if last == "none" else {int(x) for x in last.split(".") if not x.endswith("x")}
+        if not live <= seen_alive:
+            return (f"live crunch-run process(es) of container(s) {sorted(live - seen_alive)} are not reported as "
+                    f"running by Running()")
+    # Running() must report every container the pool still tracks
     if f[3].endswith(",rn") or f[3] == "rn":
         seen = set() if toks[-1] == "none" else {int(x.rstrip("x")) for x in toks[-1].split(".")}
         tracked = set()
